@@ -2,7 +2,7 @@
    This file contains only statements closed by [exact <lemma>] and their assumptions. *)
 From Coq Require Import ZArith Reals List.
 From FF Require Import Base.Ops Inst.RInst Base.RAlg Model.Numeric Model.Consts Model.Atomic Model.Concat Model.Tie.C03
-                       Proofs.AtomicAlg Proofs.Atomic Proofs.AtomicPC Proofs.Concat Proofs.ConcatInst
+                       Proofs.AtomicAlg Proofs.Atomic Proofs.AtomicPC Proofs.Concat Proofs.ConcatRows Proofs.ConcatInst
                        Inst.IInst Inst.Param Inst.EnclosureC03.
 Import ListNotations.
 
@@ -74,21 +74,21 @@ Proof. exact pc_sum_generalized. Qed.
 Print Assumptions C03_pc_sum_fidelity.
 
 (* ---------------------------------------------------------------------------------------------------
-   Hamiltonian concatenation (Model/Concat.v [concatenate_hamiltonian], compared exactly with the
-   implementation).  For any operator type with decidable equality:                                   *)
+   Hamiltonian concatenation (Model/Concat.v [concatenate_hamiltonian] = the instance [current] of the
+   mechanisms, compared exactly with the implementation).  For any operator type with decidable equality:  *)
 Section Hamiltonian.
 Variables (oper coef : Type) (oeqb : oper -> oper -> bool) (ceqb : coef -> coef -> bool) (czero : coef).
 Hypothesis oeqb_spec : forall a b, Bool.reflect (a = b) (oeqb a b).
 
-(* success: operators = the distinct operators of the inputs (matched by value, each once), identifiers sorted,
-   every coefficient row = the pulses' windows one after another with absent windows filled by zero (control)
-   or by the common constant sensitivity (noise), one identifier mapping per pulse on exactly its identifiers *)
+(* success: operators = the distinct operators of the inputs (matched by value, each once), identifiers sorted and
+   unique, every coefficient row = the pulses' windows one after another with absent windows filled by zero
+   (control) or by the common constant sensitivity (noise), one identifier mapping per pulse on exactly its identifiers *)
 Theorem C03_concat_hamiltonian_denote :
   forall k hs r, concatenate_hamiltonian oper coef oeqb ceqb czero k hs = inr r ->
   NoDup (r_ops r) /\
   (forall pe, In pe (flatten oper coef hs) -> In (e_op (snd pe)) (r_ops r)) /\
   (forall o, In o (r_ops r) -> exists pe, In pe (flatten oper coef hs) /\ e_op (snd pe) = o) /\
-  Sorted.Sorted (fun a b => String.leb a b = true) (r_ids r) /\
+  Sorted.Sorted (fun a b => String.leb a b = true) (r_ids r) /\ NoDup (r_ids r) /\
   Forall2 (fun o row => exists c, row = List.concat (map (window oper coef oeqb c o) hs) /\ (k = Control -> c = czero) /\
              (k = Noise -> has_none (row_of oper coef oeqb hs o) = true -> somes (row_of oper coef oeqb hs o) <> [] ->
               exists rest, somes (row_of oper coef oeqb hs o) = c :: rest /\ forallb (ceqb c) rest = true))
@@ -96,9 +96,38 @@ Theorem C03_concat_hamiltonian_denote :
   map (map fst) (r_map r) = map (fun h => map (@e_id oper coef) (h_entries h)) hs.
 Proof. exact (concat_hamiltonian_denote oper coef oeqb ceqb czero oeqb_spec). Qed.
 
+(* every identifier of every input pulse is mapped to the identifier its operator carries in the result
+   (mechanism m_map_all, fix 628883f) *)
+Theorem C03_mapping_sound :
+  forall k hs r p e, concatenate_hamiltonian oper coef oeqb ceqb czero k hs = inr r -> In (p, e) (flatten oper coef hs) ->
+    In (e_op e, mapped_id oper coef oeqb current hs p e) (combine (r_ops r) (r_ids r)).
+Proof. exact (mapping_sound oper coef oeqb ceqb czero oeqb_spec). Qed.
+(* ... hence the boolean masks of concatenate are consistent: as many columns as noise operators of the new pulse,
+   as many selected rows as noise operators of each pulse (no IndexError / shape error) *)
+Theorem C03_masks_consistent :
+  forall k hs r, concatenate_hamiltonian oper coef oeqb ceqb czero k hs = inr r ->
+    lens_ok (r_ids r) (r_map r) = true /\
+    (Forall (fun h => NoDup (map (@e_id oper coef) (h_entries h))) hs ->
+     rows_ok (r_map r) (map (fun h => length (h_entries h)) hs) = true).
+Proof.
+  exact (fun k hs r H => conj (lens_ok_current oper coef oeqb ceqb czero oeqb_spec k hs r H)
+                              (rows_ok_current oper coef oeqb ceqb czero oeqb_spec k hs r H)).
+Qed.
+
+(* rows of the atomic path (mechanism m_rows_by_id, fix 818a95a), for EVERY input: the control-matrix row of each
+   noise operator of pulse i lands in the row of the same operator of the new pulse *)
+Theorem C03_rows_sound :
+  forall k hs r i h row src,
+    concatenate_hamiltonian oper coef oeqb ceqb czero k hs = inr r ->
+    nth_error hs i = Some h -> NoDup (map (@e_id oper coef) (h_entries h)) ->
+    nth_error (nth i (row_sources (r_ids r) (r_map r)) nil) row = Some (Some src) ->
+    option_map (@e_op oper coef) (nth_error (h_entries h) src) = nth_error (r_ops r) row.
+Proof. exact (rows_sound oper coef oeqb ceqb czero oeqb_spec). Qed.
+
 (* compatible inputs never raise; incompatible ones raise the documented error *)
 Theorem C03_concat_succeeds :
   forall k hs, oper_ids_clash oper coef oeqb hs = false ->
+    has_dup_str (map (new_id oper coef oeqb hs) (uniq oper coef oeqb hs)) = false ->
     (k = Control \/ forall u, In u (uniq oper coef oeqb hs) -> inferable coef ceqb (row_of oper coef oeqb hs (e_op (snd u))) = true) ->
     exists r, concatenate_hamiltonian oper coef oeqb ceqb czero k hs = inr r.
 Proof. exact (concat_succeeds oper coef oeqb ceqb czero). Qed.
@@ -110,8 +139,14 @@ Theorem C03_oper_ids_clash_spec :
     exists pe1 pe2, In pe1 (flatten oper coef hs) /\ In pe2 (flatten oper coef hs) /\
                     e_op (snd pe1) = e_op (snd pe2) /\ e_id (snd pe1) <> e_id (snd pe2).
 Proof. exact (oper_ids_clash_spec oper coef oeqb ceqb czero oeqb_spec). Qed.
+Theorem C03_concat_rejects_dup_ids :
+  forall k hs, oper_ids_clash oper coef oeqb hs = false ->
+    has_dup_str (map (new_id oper coef oeqb hs) (uniq oper coef oeqb hs)) = true ->
+    concatenate_hamiltonian oper coef oeqb ceqb czero k hs = inl (EDupIds k).
+Proof. exact (concat_rejects_dup_ids oper coef oeqb ceqb czero). Qed.
 Theorem C03_concat_rejects_no_infer :
-  forall hs u, oper_ids_clash oper coef oeqb hs = false -> In u (uniq oper coef oeqb hs) ->
+  forall hs u, oper_ids_clash oper coef oeqb hs = false ->
+    has_dup_str (map (new_id oper coef oeqb hs) (uniq oper coef oeqb hs)) = false -> In u (uniq oper coef oeqb hs) ->
     inferable coef ceqb (row_of oper coef oeqb hs (e_op (snd u))) = false ->
     concatenate_hamiltonian oper coef oeqb ceqb czero Noise hs = inl ENoInfer.
 Proof. exact (concat_rejects_no_infer oper coef oeqb ceqb czero). Qed.
@@ -120,90 +155,111 @@ Theorem C03_bisect_is_pulse_position :
   forall hs ind dflt, (ind < length (flatten oper coef hs))%nat ->
     pulse_of_index oper coef hs ind = fst (nth ind (flatten oper coef hs) dflt).
 Proof. exact (bisect_is_pulse_position oper coef). Qed.
+
+(* ---------------------------------------------------------------------------------------------------
+   FULL decision soundness of concatenate for the current code, on the complete model pipeline
+   (Hamiltonian concatenation, then [decide]): for pulses with unique noise identifiers (guaranteed by the
+   constructor), every cache state of the inputs and every option combination, concatenate either
+     - rejects incompatible inputs (shape / basis / Hamiltonian errors), or
+     - raises one of the two documented ValueErrors, only when no frequencies were supplied and the cached grids
+       are unknown or inconsistent, or
+     - returns a pulse whose frequency-dependent attributes are all for the grid that was used (supplied, or
+       cached on an input) -- never a filter function without known frequencies -- and which has the pulse
+       correlation filter function whenever calc_pulse_correlation_FF = True.
+   The IndexError / shape-error outcomes of the faithful row bookkeeping are excluded by C03_masks_consistent. *)
+Theorem C03_decision_sound :
+  forall (ps : list (pulse oper coef)) cs o, Forall (wf_pulse oper coef) ps ->
+  match concatenate_outcome oper coef oeqb ceqb czero ps cs o with
+  | ORaise e => incompatible e \/
+                (e = EForced \/ e = ENoFreqPC) /\ o_omega o = None /\ all_equal_nat (grids_consulted cs) = false
+  | ORet r => (freq_dependent r = true -> grid_known cs o r) /\ (o_pc o = true -> t_pc r = true)
+  | OCopy => True
+  end.
+Proof. exact (decision_sound oper coef oeqb ceqb czero oeqb_spec). Qed.
 End Hamiltonian.
 Print Assumptions C03_concat_hamiltonian_denote.
+Print Assumptions C03_decision_sound.
 (* the hypothesis (operator comparison decides equality) holds for the instance evaluated against the code *)
 Example C03_instance_decides_equality : forall a b, Bool.reflect (a = b) (Corr.C03Obs.op_eqb a b).
 Proof. exact op_eqb_spec. Qed.
 Example C03_concat_example_succeeds :
   concatenate_hamiltonian nat Z Nat.eqb Z.eqb 0%Z Noise ex_hams2 = inr ex_result2.
 Proof. exact concat_example_succeeds. Qed.
+(* the hypotheses of C03_decision_sound are satisfiable, with every kind of outcome (see also the witnesses below) *)
+Example C03_decision_sound_hyps_satisfiable :
+  Forall (wf_pulse nat Z) wit_stale_shared /\ pc_available current wit_stale_shared [no_cache; no_cache; no_cache] opts_pc.
+Proof. split. repeat constructor; simpl; intuition discriminate. exact (proj2 (proj2 (proj2 decision_pc_current_witnesses))). Qed.
 
-(* "every identifier of every input is mapped to the identifier its operator carries in the result" and "the rows
-   of each pulse's control matrix land in the rows of the same operators" -- both VIOLATED by the pinned code: *)
-Theorem C03_mapping_refuted : ~ mapping_sound_on hams_ZXZ.
-Proof. exact mapping_refuted. Qed.
-Example C03_mapping_sound_two_pulses : mapping_sound_on hams_ZX.
-Proof. exact mapping_sound_two. Qed.
-(* ... while for the pulse that holds the operator FIRST the stored mapping is the right one (any number of pulses) *)
-Theorem C03_mapping_right_for_first_holder :
+(* Component statements about [decide] alone, for EVERY combination of the mechanisms (current and pre-fix code) *)
+Theorem C03_decision_grid_sound :
+  forall mc new_ids maps nn cs o r,
+    decide_gen mc new_ids maps nn cs o = ORet r -> freq_dependent r = true -> grid_known cs o r.
+Proof. exact decide_grid_sound. Qed.
+Theorem C03_decision_raise_sound :
+  forall mc new_ids maps nn cs o e,
+    decide_gen mc new_ids maps nn cs o = ORaise e ->
+    ((e = EForced /\ o_ff o = TTrue) \/ (e = ENoFreqPC /\ o_pc o = true)) /\ o_omega o = None /\
+      all_equal_nat (grids_consulted cs) = false
+    \/ e = EIndexError \/ e = EShapeError.
+Proof. exact decide_raise_sound. Qed.
+Theorem C03_decision_pc_current :
+  forall new_ids maps nn cs o r, decide new_ids maps nn cs o = ORet r -> o_pc o = true -> t_pc r = true.
+Proof. exact decide_pc_current. Qed.
+
+(* ---------------------------------------------------------------------------------------------------
+   The theorems depend on the mechanisms of the fix: commits: with one mechanism switched off (= the code before
+   628883f / 1b28810 / 818a95a) the statements are FALSE (witnesses by computation); on the current code the same
+   inputs behave as required.                                                                             *)
+Theorem C03_decision_sound_prefix_refuted : ~ decision_sound_stmt mech_no_pc.
+Proof. exact decision_sound_prefix_refuted. Qed.
+Theorem C03_decision_pc_prefix_refuted_disjoint : pc_silently_missing mech_no_pc wit_disjoint [no_cache; no_cache] opts_pc.
+Proof. exact decision_pc_prefix_refuted_disjoint. Qed.
+Theorem C03_decision_pc_prefix_refuted_no_control_matrix :
+  pc_silently_missing mech_no_pc wit_shared [omega_only; omega_only] (mkOpts TNone None false true).
+Proof. exact decision_pc_prefix_refuted_no_control_matrix. Qed.
+Theorem C03_decision_pc_prefix_refuted_stale_mapping :
+  pc_silently_missing prefix wit_stale [no_cache; no_cache; no_cache] opts_pc.
+Proof. exact decision_pc_prefix_refuted_stale_mapping. Qed.
+Theorem C03_decision_prefix_refuted_stale_mapping_crash :
+  w_outcome mech_no_map wit_stale [no_cache; no_cache; no_cache] opts_pc = ORaise EIndexError /\
+  w_outcome mech_no_map wit_stale_shared [no_cache; no_cache; no_cache] (mkOpts TTrue (Some 0%nat) false false) = ORaise EIndexError.
+Proof. exact decision_prefix_refuted_stale_mapping_crash. Qed.
+Example C03_decision_pc_current_witnesses :
+  pc_available current wit_disjoint [no_cache; no_cache] opts_pc /\
+  pc_available current wit_shared [omega_only; omega_only] (mkOpts TNone None false true) /\
+  pc_available current wit_stale [no_cache; no_cache; no_cache] opts_pc /\
+  pc_available current wit_stale_shared [no_cache; no_cache; no_cache] opts_pc.
+Proof. exact decision_pc_current_witnesses. Qed.
+Theorem C03_mapping_prefix_refuted : ~ mapping_sound_on mech_no_map hams_ZXZ.
+Proof. exact mapping_prefix_refuted. Qed.
+Example C03_mapping_current_ZXZ : mapping_sound_on current hams_ZXZ.
+Proof. exact mapping_current_ZXZ. Qed.
+(* before the fix the stored mapping was right only for the pulse holding the operator first *)
+Theorem C03_mapping_prefix_right_for_first_holder :
   forall (oper coef : Type) (oeqb : oper -> oper -> bool) (ceqb : coef -> coef -> bool) (czero : coef),
     (forall a b, Bool.reflect (a = b) (oeqb a b)) ->
     forall hs p e, oper_ids_clash oper coef oeqb hs = false -> In (p, e) (flatten oper coef hs) ->
       first_pulse oper coef oeqb hs (e_op e) = Some p ->
       exists u, In u (uniq oper coef oeqb hs) /\ e_op (snd u) = e_op e /\
-                mapped_id oper coef oeqb hs p e = new_id oper coef oeqb hs u.
-Proof. exact mapping_right_for_first_holder. Qed.
-Theorem C03_row_assignment_refuted : ~ rows_sound_on hams_flip.
-Proof. exact row_assignment_refuted. Qed.
+                mapped_id oper coef oeqb prefix hs p e = new_id oper coef oeqb hs u.
+Proof. exact mapped_id_prefix_first_holder. Qed.
+Theorem C03_dup_ids_prefix_refuted : exists r, w_ham mech_no_dup hams_dup = inr r /\ has_dup_str (r_ids r) = true.
+Proof. exact dup_ids_prefix_refuted. Qed.
+Example C03_dup_ids_current_rejected : w_ham current hams_dup = inl (EDupIds Noise).
+Proof. exact dup_ids_current_rejected. Qed.
+Theorem C03_row_assignment_prefix_refuted : ~ rows_sound_on mech_no_rows hams_flip.
+Proof. exact row_assignment_prefix_refuted. Qed.
+Example C03_row_assignment_current_flip : rows_sound_on current hams_flip.
+Proof. exact row_assignment_current_flip. Qed.
 
-(* ---------------------------------------------------------------------------------------------------
-   Decision logic of concatenate (Model/Concat.v [decide], compared cell by cell with the implementation). *)
-(* never a frequency-dependent attribute without known frequencies; cached data are for the grid used *)
-Theorem C03_decision_grid_sound :
-  forall new_ids maps nn cs o r,
-    decide new_ids maps nn cs o = ORet r -> freq_dependent r = true -> grid_known cs o r.
-Proof. exact decide_grid_sound. Qed.
-Print Assumptions C03_decision_grid_sound.
-
-(* the documented ValueErrors only when no frequencies are supplied and the cached ones are unknown or
-   inconsistent; the only other exceptions of the faithful model are the two unintended crashes *)
-Theorem C03_decision_raise_sound :
-  forall new_ids maps nn cs o e,
-    decide new_ids maps nn cs o = ORaise e ->
-    ((e = EForced /\ o_ff o = TTrue) \/ (e = ENoFreqPC /\ o_pc o = true)) /\ o_omega o = None /\
-      all_equal_nat (grids_consulted cs) = false
-    \/ e = EIndexError \/ e = EShapeError.
-Proof. exact decide_raise_sound. Qed.
-Print Assumptions C03_decision_raise_sound.
-
-(* on the atomic path the correlations are available exactly when requested *)
-Theorem C03_decision_pc_atomic_partial :
-  forall new_ids maps nn cs o r,
-    decide new_ids maps nn cs o = ORet r -> t_path r = PAtomic -> t_pc r = o_pc o /\ t_pcgen r = (o_pc o && o_gen o)%bool.
-Proof. exact decide_pc_atomic. Qed.
-
-(* Full statement of the property for the decision logic -- VIOLATED by the pinned code: *)
-Definition C03_decision_sound_full : Prop := decision_sound_stmt.
-Theorem C03_decision_refuted : ~ C03_decision_sound_full.
-Proof. exact decision_sound_refuted. Qed.
-Print Assumptions C03_decision_refuted.
-(* the three paths on which calc_pulse_correlation_FF = True returns silently without correlations,
-   and the crash on compatible inputs, on the complete model pipeline *)
-Theorem C03_decision_refuted_disjoint :
-  pc_silently_missing wit_disjoint [no_cache; no_cache] (mkOpts TNone (Some 0%nat) false true).
-Proof. exact decision_pc_refuted_disjoint. Qed.
-Theorem C03_decision_refuted_stale_mapping :
-  pc_silently_missing wit_stale [no_cache; no_cache; no_cache] (mkOpts TNone (Some 0%nat) false true).
-Proof. exact decision_pc_refuted_stale_mapping. Qed.
-Theorem C03_decision_refuted_no_control_matrix :
-  pc_silently_missing wit_shared [omega_only; omega_only] (mkOpts TNone None false true).
-Proof. exact decision_pc_refuted_no_control_matrix. Qed.
-Theorem C03_decision_refuted_crash :
-  w_outcome wit_stale_shared [no_cache; no_cache; no_cache] (mkOpts TTrue (Some 0%nat) false false) = ORaise EIndexError.
-Proof. exact decision_crash_refuted. Qed.
-
-(* The proposed minimal repair of concatenate (guards `and not calc_pulse_correlation_FF` on the early exit and on
-   the from-scratch shortcut; identifier mappings updated for every pulse holding the operator; rows placed by
-   identifier) satisfies the full statement.  [decide_fixed] models the PROPOSAL, not the pinned code.          *)
-Theorem C03_decision_sound_for_proposed_fix :
-  forall maps cs o,
-    match decide_fixed maps cs o with
-    | ORaise e => (e = EForced \/ e = ENoFreqPC) /\ o_omega o = None /\ all_equal_nat (grids_consulted cs) = false
-    | ORet r => (freq_dependent r = true -> grid_known cs o r) /\ (o_pc o = true -> t_pc r = true)
-    | OCopy => True
-    end.
-Proof. exact decision_sound_for_proposed_fix. Qed.
+(* OPEN finding of the current code: regrouping after an identifier clash is rejected -- the flat concatenation of
+   {X: Z, XY: Y}, {X: X, XY: Y}, {X: Z, XY: Y} succeeds, concatenating the first two first renames Z to X_0 and the
+   outer concatenation raises 'equal operators but different identifiers' (the suffix renaming is not associative) *)
+Theorem C03_regroup_after_clash_refuted :
+  (exists r, w_ham current hams_regroup = inr r) /\
+  exists r12, w_ham current (firstn 2 hams_regroup) = inr r12 /\
+              w_ham current [ham_of 2 r12; nth 2 hams_regroup (mkHam 0 [])] = inl (EOperIds Noise).
+Proof. exact regroup_after_clash_refuted. Qed.
 
 (* Enclosure (paramcoq, kernel-checked): the atomic-path control matrix evaluated by the correspondence check on
    hardware-float intervals encloses the real-valued model value the theorems above are about (same for the
